@@ -11,8 +11,14 @@ import (
 	"strings"
 )
 
+// refID stands for a keyvalue id: its numeric value is implementation-defined
+// (address-derived), so the reference only predicts where ids appear.
+type refID struct{}
+
 func typeName(v any) string {
 	switch x := v.(type) {
+	case refID:
+		return "number"
 	case nil:
 		return "null"
 	case bool:
@@ -249,7 +255,7 @@ func (c *refCtx) method(s *Expr, v any, unwrap bool, k emitFn, each func([]any) 
 			return soft(".keyvalue() can only be applied to an object")
 		}
 		c.kvSeq++
-		id := "ID"
+		id := refID{}
 		for _, key := range sortedKeys(obj) {
 			if err := k(map[string]any{"key": key, "value": obj[key], "id": id}); err != nil {
 				return err
